@@ -120,6 +120,17 @@ def gen_spec(rng, *, nt=(2, 6), marks=(), behs=("ok",), after_p=0.3, nomods=(1, 
     return spec
 
 
+def vary_decorators(rng, spec, p=0.35):
+    """Decorator stacks: for a share of the marked tasks, put the markers below / above @task(...) and add a functools.wraps
+    pass-through decorator at the top, in the middle or at the bottom of the stack (all orders are legal pytask)."""
+    for t in spec["tasks"]:
+        if t.get("marks") and not t.get("gen") and rng.random() < p:
+            t["wrap"] = rng.choice(["top", "mid", "bottom"])
+            t["marks_below"] = rng.random() < 0.5
+            t["force_decorator"] = rng.random() < 0.7
+    return spec
+
+
 # ------------------------------------------------------------------------------------------------
 # spec-level graph helpers (independent of pytask and of the Lean model)
 # ------------------------------------------------------------------------------------------------
